@@ -5,24 +5,32 @@ minus the cuts of the rules followed by the tag's output, and the next round sta
 with the left cut of the next text applied or pending. -/
 namespace MJ.Lexer
 
-def Tag.marker (g : Tag) : Marker :=
-  match g.kind with
-  | .var _ => .var
-  | .block _ _ => .block
-  | .comment _ => .comment
-  | .raw _ _ _ _ => .block
-
-theorem Tag.own (d : Delims) (g : Tag) : Own d (g.start d) g.marker := by
-  cases g with | mk kind l r => cases kind <;> constructor
+theorem Tag.own {d : Delims} (g : Tag) (z : List Char) (hok : tagOk d g z = true) :
+    (g.marker, g.start d) ∈ startPats d := by
+  cases g with
+  | mk kind l r =>
+    cases kind with
+    | var ts => simp [Tag.marker, Tag.start, startPats]
+    | block ts => simp [Tag.marker, Tag.start, startPats]
+    | comment body => simp [Tag.marker, Tag.start, startPats]
+    | raw c ri l2 tight => simp [Tag.marker, Tag.start, startPats]
+    | lineStmt ts =>
+      simp only [tagOk, Bool.and_eq_true, Bool.not_eq_true', List.isEmpty_eq_false_iff] at hok
+      have : d.ls.isEmpty = false := by simpa using hok.1.1.1.1
+      simp [Tag.marker, Tag.start, startPats, this]
+    | lineComment body =>
+      simp only [tagOk, Bool.and_eq_true, Bool.not_eq_true', List.isEmpty_eq_false_iff] at hok
+      have : d.lc.isEmpty = false := by simpa using hok.1.1.1.1.1
+      simp [Tag.marker, Tag.start, startPats, this]
 
 theorem Tag.marker_blockish (g : Tag) : (g.marker != .var) = g.blockish := by
   cases g with | mk kind l r => cases kind <;> rfl
 
-theorem Tag.marker_ne_lineStmt (g : Tag) : g.marker ≠ .lineStmt := by
-  cases g with | mk kind l r => cases kind <;> simp [Tag.marker]
+theorem Tag.marker_ne_lineStmt (g : Tag) (h : g.isLine = false) : g.marker ≠ .lineStmt := by
+  cases g with | mk kind l r => cases kind <;> simp_all [Tag.marker, Tag.isLine]
 
-theorem Tag.marker_ne_lineComment (g : Tag) : g.marker ≠ .lineComment := by
-  cases g with | mk kind l r => cases kind <;> simp [Tag.marker]
+theorem Tag.marker_ne_lineComment (g : Tag) (h : g.isLine = false) : g.marker ≠ .lineComment := by
+  cases g with | mk kind l r => cases kind <;> simp_all [Tag.marker, Tag.isLine]
 
 theorem Mark.ws_len (m : Mark) : m.ws.len = m.src.length := by cases m <;> rfl
 
@@ -159,55 +167,69 @@ theorem drop_start_mark (start : List Char) (l : Mark) (y : List Char) :
     (start ++ (l.src ++ y)).drop (start.length + l.ws.len) = y := by
   rw [Mark.ws_len, ← List.append_assoc, ← List.length_append, List.drop_left]
 
-theorem handleTag_var (cfg : Cfg) {d : Delims} (g : Good d) (lead : List Out) (tight : Bool) (l r : Mark)
-    (preTag t' more : List Char) :
+theorem length_sub_right (a x : List Char) : (a ++ x).length - x.length = a.length := by simp
+
+theorem handleTag_var (cfg : Cfg) {d : Delims} (g : Good d) (lead : List Out) (ts : List Tok) (l r : Mark)
+    (preTag t' more : List Char)
+    (hok : interiorOk d.ve 0 ts (r.src ++ (d.ve ++ (t' ++ more))) = true) :
     handleTag cfg d lead .var (d.vs.length + l.ws.len) preTag
-        ((Tag.mk (.var tight) l r).src d ++ (t' ++ more)) =
-      .next (lead ++ [.var]) (((t').take (nextK cfg false r t')).reverse ++ (((Tag.mk (.var tight) l r).src d).reverse ++ preTag))
+        ((Tag.mk (.var ts) l r).src d ++ (t' ++ more)) =
+      .next (lead ++ [.var]) (((t').take (nextK cfg false r t')).reverse ++ (((Tag.mk (.var ts) l r).src d).reverse ++ preTag))
         ((t').drop (nextK cfg false r t') ++ more) (nextTf r) := by
   have hk : nextK cfg false r t' = 0 := by cases r <;> simp [nextK]
   obtain ⟨c, rr, hvs, _⟩ := startOk_cons g.vs
-  have hne : (Tag.mk (.var tight) l r).src d ≠ [] := by simp [Tag.src, Tag.start, hvs]
-  have hsrc : (Tag.mk (.var tight) l r).src d ++ (t' ++ more) =
-      d.vs ++ (l.src ++ (varBody tight ++ (r.src ++ (d.ve ++ (t' ++ more))))) := by
+  have hne : (Tag.mk (.var ts) l r).src d ≠ [] := by simp [Tag.src, Tag.start, hvs]
+  have hsrc : (Tag.mk (.var ts) l r).src d ++ (t' ++ more) =
+      d.vs ++ (l.src ++ (srcs ts ++ (r.src ++ (d.ve ++ (t' ++ more))))) := by
     simp [Tag.src, Tag.start, Tag.after, List.append_assoc]
-  have hlen : ((Tag.mk (.var tight) l r).src d).length =
-      d.vs.length + l.ws.len + ((varBody tight).length + r.src.length + d.ve.length) := by
+  have hlen : ((Tag.mk (.var ts) l r).src d).length =
+      d.vs.length + l.ws.len + ((srcs ts).length + r.src.length + d.ve.length) := by
     simp [Tag.src, Tag.start, Tag.after, Mark.ws_len]; omega
+  have hinner : (srcs ts ++ (r.src ++ (d.ve ++ (t' ++ more)))).length - (t' ++ more).length =
+      (srcs ts).length + r.src.length + d.ve.length := by
+    have := length_sub_right (srcs ts ++ (r.src ++ d.ve)) (t' ++ more)
+    simp only [List.append_assoc] at this
+    rw [this]; simp; omega
   unfold handleTag
   simp only []
-  rw [hsrc, drop_start_mark, scanTag_varBody g.ve]
+  rw [hsrc, drop_start_mark, interior_end_found g.ve ts r _ hok]
   simp only []
-  rw [← hsrc, ← hlen]
-  have := contAfter_src lead [.var] preTag ((Tag.mk (.var tight) l r).src d) (t' ++ more) 0 (decide (r.ws = Ws.remove)) hne
+  rw [hinner, ← hsrc, ← hlen]
+  have := contAfter_src lead [.var] preTag ((Tag.mk (.var ts) l r).src d) (t' ++ more) 0 (decide (r.ws = Ws.remove)) hne
   simp only [Nat.add_zero] at this
   rw [this, hk]
   cases r <;> simp [nextTf, Mark.ws]
 
-theorem skipBasicTag_word_none (w : Word) (tight : Bool) (y be : List Char) :
-    skipBasicTag (w.src tight ++ y) rawName be false = none := by
-  cases w <;> cases tight <;>
-    simp [skipBasicTag, stripMarkerIf, Word.src, Word.core, pad, rawName, List.dropWhile_cons, isAsciiWs, startsWith]
+theorem skipBasicTag_notRaw (s be : List Char)
+    (h : startsWith rawName (s.dropWhile isAsciiWs) = false) : skipBasicTag s rawName be false = none := by
+  simp [skipBasicTag, stripMarkerIf, h]
 
-theorem handleTag_block (cfg : Cfg) {d : Delims} (g : Good d) (lead : List Out) (w : Word) (tight : Bool) (l r : Mark)
-    (preTag t' more : List Char) (hm : NoWsHead more) :
+theorem handleTag_block (cfg : Cfg) {d : Delims} (g : Good d) (lead : List Out) (ts : List Tok) (l r : Mark)
+    (preTag t' more : List Char) (hm : NoWsHead more)
+    (hok : interiorOk d.be 0 ts (r.src ++ (d.be ++ (t' ++ more))) = true)
+    (hraw : startsWith rawName ((srcs ts ++ (r.src ++ (d.be ++ (t' ++ more)))).dropWhile isAsciiWs) = false) :
     handleTag cfg d lead .block (d.bs.length + l.ws.len) preTag
-        ((Tag.mk (.block w tight) l r).src d ++ (t' ++ more)) =
-      .next (lead ++ [.blk]) (((t').take (nextK cfg true r t')).reverse ++ (((Tag.mk (.block w tight) l r).src d).reverse ++ preTag))
+        ((Tag.mk (.block ts) l r).src d ++ (t' ++ more)) =
+      .next (lead ++ [.blk]) (((t').take (nextK cfg true r t')).reverse ++ (((Tag.mk (.block ts) l r).src d).reverse ++ preTag))
         ((t').drop (nextK cfg true r t') ++ more) (nextTf r) := by
   obtain ⟨c, rr, hbs, _⟩ := startOk_cons g.bs
-  have hne : (Tag.mk (.block w tight) l r).src d ≠ [] := by simp [Tag.src, Tag.start, hbs]
-  have hsrc : (Tag.mk (.block w tight) l r).src d ++ (t' ++ more) =
-      d.bs ++ (l.src ++ (w.src tight ++ (r.src ++ (d.be ++ (t' ++ more))))) := by
+  have hne : (Tag.mk (.block ts) l r).src d ≠ [] := by simp [Tag.src, Tag.start, hbs]
+  have hsrc : (Tag.mk (.block ts) l r).src d ++ (t' ++ more) =
+      d.bs ++ (l.src ++ (srcs ts ++ (r.src ++ (d.be ++ (t' ++ more))))) := by
     simp [Tag.src, Tag.start, Tag.after, List.append_assoc]
-  have hlen : ((Tag.mk (.block w tight) l r).src d).length =
-      d.bs.length + l.ws.len + ((w.src tight).length + r.src.length + d.be.length) := by
+  have hlen : ((Tag.mk (.block ts) l r).src d).length =
+      d.bs.length + l.ws.len + ((srcs ts).length + r.src.length + d.be.length) := by
     simp [Tag.src, Tag.start, Tag.after, Mark.ws_len]; omega
+  have hinner : (srcs ts ++ (r.src ++ (d.be ++ (t' ++ more)))).length - (t' ++ more).length =
+      (srcs ts).length + r.src.length + d.be.length := by
+    have := length_sub_right (srcs ts ++ (r.src ++ d.be)) (t' ++ more)
+    simp only [List.append_assoc] at this
+    rw [this]; simp; omega
   unfold handleTag
   simp only []
-  rw [hsrc, drop_start_mark, skipBasicTag_word_none, scanTag_word g.be]
+  rw [hsrc, drop_start_mark, skipBasicTag_notRaw _ _ hraw, interior_end_found g.be ts r _ hok]
   simp only []
-  rw [← hsrc, ← hlen, List.drop_left, tailWs_eq cfg r t' more hm]
+  rw [hinner, ← hsrc, ← hlen, List.drop_left, tailWs_eq cfg r t' more hm]
   simp only []
   rw [contAfter_src lead [.blk] preTag _ (t' ++ more) _ _ hne]
   rw [List.take_append_of_le_length (nextK_le cfg true r t'), List.drop_append_of_le_length (nextK_le cfg true r t')]
@@ -288,7 +310,7 @@ theorem rawData_eq (cfg : Cfg) (ri l2 : Mark) (preRaw c : List Char) (hc : CtxOk
       leadOf cfg l2.ws .block (c.reverse ++ preRaw) (c.drop (leftCut cfg true ri c)) := by
     cases ri <;> cases l2 <;>
       simp [rawData, leadOf, Mark.ws, leftCut, trimNl, shouldLstrip, dropWhile_eq_drop]
-  rw [h1, leadOf_eq_cut cfg hc l2 .block true rfl (by simp) (by simp)]
+  rw [h1, leadOf_eq_cut cfg c (Or.inl hc) l2 .block true rfl (by simp) (by simp)]
 
 theorem handleTag_raw (cfg : Cfg) {d : Delims} (g : Good d) (lead : List Out) (c : List Char)
     (ri l2 : Mark) (tight : Bool) (l r : Mark) (preTag t' more : List Char) (hm : NoWsHead more)
@@ -332,5 +354,145 @@ theorem handleTag_raw (cfg : Cfg) {d : Delims} (g : Good d) (lead : List Out) (c
   obtain ⟨ce, re, hre, hw⟩ := lastOk_rev g.lbe
   refine Or.inr ⟨rfl, ce, re ++ ((d.bs ++ (l.src ++ (rawBody tight ++ ri.src))).reverse ++ preTag), ?_, hw⟩
   simp [rawOpen, List.reverse_append, hre, List.append_assoc]
+
+/-! ### line statements and line comments -/
+
+/-- characters skipped right behind the tag `g` -/
+def nextKG (cfg : Cfg) (g : Tag) (t' : List Char) : Nat :=
+  match g.kind with
+  | .lineStmt _ => lineCut t'
+  | _ => nextK (cfgFor cfg g) g.blockish g.r t'
+
+theorem lineCut_le (t : List Char) : lineCut t ≤ t.length := by
+  unfold lineCut
+  have h1 := List.takeWhile_append_dropWhile (p := isHws) (l := t)
+  have h2 := nlLen_le (t.dropWhile isHws)
+  have : t.length = (t.takeWhile isHws).length + (t.dropWhile isHws).length := by
+    have := congrArg List.length h1
+    rw [List.length_append] at this
+    exact this.symm
+  omega
+
+theorem nextKG_le (cfg : Cfg) (g : Tag) (t' : List Char) : nextKG cfg g t' ≤ t'.length := by
+  cases g with
+  | mk kind l r =>
+    cases kind <;> first | exact nextK_le _ _ _ _ | exact lineCut_le _
+
+theorem leftCutG_eq (cfg : Cfg) (g : Tag) (t' : List Char) (hr : g.isLine = true → g.r = .none) :
+    leftCutG cfg g t' = if nextTf g.r then wsPre t' else nextKG cfg g t' := by
+  cases g with
+  | mk kind l r =>
+    cases kind with
+    | lineStmt ts =>
+      have : r = .none := hr rfl
+      subst this
+      simp [leftCutG, nextKG, nextTf]
+    | var ts => exact leftCut_eq _ _ _ _
+    | block ts => exact leftCut_eq _ _ _ _
+    | comment b => exact leftCut_eq _ _ _ _
+    | raw c ri l2 tight => exact leftCut_eq _ _ _ _
+    | lineComment b => exact leftCut_eq _ _ _ _
+
+theorem nextTf_kG (cfg : Cfg) (g : Tag) (t' : List Char) (hr : g.isLine = true → g.r = .none)
+    (h : nextTf g.r = true) : nextKG cfg g t' = 0 := by
+  cases g with
+  | mk kind l r =>
+    cases kind with
+    | lineStmt ts =>
+      have : r = .none := hr rfl
+      subst this
+      simp [nextTf] at h
+    | var ts => exact nextTf_k _ _ _ _ h
+    | block ts => exact nextTf_k _ _ _ _ h
+    | comment b => exact nextTf_k _ _ _ _ h
+    | raw c ri l2 tight => exact nextTf_k _ _ _ _ h
+    | lineComment b => exact nextTf_k _ _ _ _ h
+
+theorem dropWhile_hws_append (t more : List Char) (h : NoWsHead more) :
+    (t ++ more).dropWhile isHws = t.dropWhile isHws ++ more := by
+  induction t with
+  | nil =>
+    rcases h with rfl | ⟨c, r, rfl, hw⟩
+    · rfl
+    · simp [List.dropWhile_cons, isHws, hw]
+  | cons a t ih =>
+    simp only [List.cons_append, List.dropWhile_cons, ih]
+    split <;> rfl
+
+theorem takeWhile_hws_append (t more : List Char) (h : NoWsHead more) :
+    (t ++ more).takeWhile isHws = t.takeWhile isHws := by
+  induction t with
+  | nil =>
+    rcases h with rfl | ⟨c, r, rfl, hw⟩
+    · rfl
+    · simp [List.takeWhile_cons, isHws, hw]
+  | cons a t ih =>
+    simp only [List.cons_append, List.takeWhile_cons, ih]
+
+theorem lineCut_append (t more : List Char) (h : NoWsHead more) : lineCut (t ++ more) = lineCut t := by
+  unfold lineCut
+  rw [takeWhile_hws_append t more h, dropWhile_hws_append t more h, nlLen_append _ _ h]
+
+theorem handleTag_lineStmt (cfg : Cfg) {d : Delims} (lead : List Out) (ts : List Tok)
+    (preTag t' more : List Char) (hm : NoWsHead more) (hls : d.ls ≠ [])
+    (hok : lineInteriorOk 0 ts (t' ++ more) = true) (hf : lineFollow (t' ++ more) = true) :
+    handleTag cfg d lead .lineStmt (d.ls.length + Ws.dflt.len) preTag
+        ((Tag.mk (.lineStmt ts) .none .none).src d ++ (t' ++ more)) =
+      .next (lead ++ [.blk]) (((t').take (lineCut t')).reverse ++ (((Tag.mk (.lineStmt ts) .none .none).src d).reverse ++ preTag))
+        ((t').drop (lineCut t') ++ more) false := by
+  have hne : (Tag.mk (.lineStmt ts) .none .none).src d ≠ [] := by
+    simp [Tag.src, Tag.start, hls]
+  have hsrc : (Tag.mk (.lineStmt ts) .none .none).src d ++ (t' ++ more) = d.ls ++ (srcs ts ++ (t' ++ more)) := by
+    simp [Tag.src, Tag.start, Tag.after, List.append_assoc]
+  have hlen : ((Tag.mk (.lineStmt ts) .none .none).src d).length = d.ls.length + (srcs ts).length := by
+    simp [Tag.src, Tag.start, Tag.after]
+  have hcut : lineCut (t' ++ more) = lineCut t' := lineCut_append t' more hm
+  have hle := lineCut_le t'
+  have hinner : (srcs ts ++ (t' ++ more)).length - ((t' ++ more).drop (lineCut (t' ++ more))).length =
+      (srcs ts).length + lineCut t' := by
+    rw [hcut]; simp only [List.length_append, List.length_drop]; omega
+  unfold handleTag
+  simp only [Ws.len, Nat.add_zero]
+  rw [hsrc, List.drop_left, line_interior_end_found ts _ hok hf]
+  simp only []
+  rw [hinner, ← hsrc, ← Nat.add_assoc, ← hlen]
+  rw [contAfter_src lead [.blk] preTag _ (t' ++ more) _ _ hne]
+  rw [List.take_append_of_le_length hle, List.drop_append_of_le_length hle]
+
+theorem takeWhile_not_nl (body rest : List Char) (hb : ∀ c ∈ body, isNl c = false)
+    (hr : commentFollow rest = true) :
+    (body ++ rest).takeWhile (fun c => !isNl c) = body := by
+  induction body with
+  | nil =>
+    cases rest with
+    | nil => rfl
+    | cons c r =>
+      simp only [commentFollow] at hr
+      simp [List.takeWhile_cons, hr]
+  | cons a body ih =>
+    simp only [List.cons_append, List.takeWhile_cons, hb a (by simp), Bool.not_false, if_true]
+    rw [ih (fun x hx => hb x (by simp [hx]))]
+
+theorem handleTag_lineComment (cfg : Cfg) {d : Delims} (lead : List Out) (body : List Char)
+    (preTag t' more : List Char) (hm : NoWsHead more) (hlc : d.lc ≠ [])
+    (hb : ∀ c ∈ body, isNl c = false) (hf : commentFollow (t' ++ more) = true) :
+    handleTag cfg d lead .lineComment (d.lc.length + Ws.dflt.len) preTag
+        ((Tag.mk (.lineComment body) .none .none).src d ++ (t' ++ more)) =
+      .next (lead ++ []) (((t').take (nlLen t')).reverse ++ (((Tag.mk (.lineComment body) .none .none).src d).reverse ++ preTag))
+        ((t').drop (nlLen t') ++ more) false := by
+  have hne : (Tag.mk (.lineComment body) .none .none).src d ≠ [] := by
+    simp [Tag.src, Tag.start, hlc]
+  have hsrc : (Tag.mk (.lineComment body) .none .none).src d ++ (t' ++ more) = d.lc ++ (body ++ (t' ++ more)) := by
+    simp [Tag.src, Tag.start, Tag.after, List.append_assoc]
+  have hlen : ((Tag.mk (.lineComment body) .none .none).src d).length = d.lc.length + body.length := by
+    simp [Tag.src, Tag.start, Tag.after]
+  have hle := nlLen_le t'
+  unfold handleTag
+  simp only [Ws.len, Nat.add_zero]
+  rw [hsrc, List.drop_left, takeWhile_not_nl body _ hb hf, List.drop_left]
+  simp only [skipNl]
+  rw [nlLen_append _ _ hm, ← hsrc, ← hlen]
+  rw [contAfter_src lead [] preTag _ (t' ++ more) _ _ hne]
+  rw [List.take_append_of_le_length hle, List.drop_append_of_le_length hle]
 
 end MJ.Lexer
